@@ -1,7 +1,7 @@
 (* Proofs/MergeRows.v — C02: the destination of the streamed path holds exactly the rows of the relational
    join (Spec/MergeSpec.v: join_pairs / gather_col / merge_spec), in the order of join_pairs. *)
 From Coq Require Import ZArith List Lia Bool.
-From EV Require Import Res Arr Join JoinSpec JoinBase JoinIface JoinRows MapStream MapStreamSpec MapIndexedDriver
+From EV Require Import Res Arr Join JoinSpec JoinBase JoinIface JoinRows MapStream MapStreamSpec MapStreamBase MapIndexedDriver
   Merge MergeSpec MergeBase MergeOrdered MergeMaps.
 Import ListNotations.
 Open Scope Z_scope.
@@ -62,7 +62,7 @@ Qed.
 (* gathering through a marker map = gathering through the option list *)
 Definition opt_of (inv k:Z) : option Z := if k =? inv then None else Some k.
 
-Lemma gatherZ_gather c n inv m : valid_map n inv m ->
+Lemma gatherZ_gather c n inv m : in_range_map n inv m ->
   match c with CFix _ _ d => True | CIdx idx _ => len idx - 1 = n end ->
   gatherZ c inv m = gather_col c (map (opt_of inv) m).
 Proof.
@@ -74,7 +74,7 @@ Proof.
     { unfold map_spec. rewrite map_map. apply map_ext_in. intros k Hk. unfold opt_of. destruct (k =? inv) eqn:E; [reflexivity|].
       apply (decode_nth idx vals 1 1). rewrite Hc.
       apply In_nth with (d:=0) in Hk. destruct Hk as (q & Hq & Hnth).
-      destruct Hv as (Hr & _). specialize (Hr (Z.of_nat q)). unfold nthZ, nthd, len in Hr. rewrite Nat2Z.id, Hnth in Hr.
+      pose proof (Hv (Z.of_nat q)) as Hr. unfold nthZ, nthd, len in Hr. rewrite Nat2Z.id, Hnth in Hr.
       apply Hr; lia. }
     rewrite Hs. reflexivity.
 Qed.
@@ -102,7 +102,7 @@ Definition idx_len_ok (n:Z) (cols:frame) : Prop :=
   forall f, In f cols -> match snd f with CFix _ _ _ => True | CIdx idx _ => len idx - 1 = n end.
 
 Lemma side_out_spec cols other suf inv m n ixs :
-  valid_map n inv m -> map (opt_of inv) m = ixs -> idx_len_ok n cols ->
+  in_range_map n inv m -> map (opt_of inv) m = ixs -> idx_len_ok n cols ->
   side_out cols other suf (Some m) inv = map (fun f => (spec_name (fst f) other suf, gather_col (snd f) ixs)) cols.
 Proof.
   intros Hv <- Hc. unfold side_out. apply map_ext_in. intros f Hf. f_equal. cbn [out_col].
@@ -121,14 +121,13 @@ Theorem ordered_dest_is_merge_spec how lu ru lk rk lcols rcols lsuf rsuf :
   let inv := merge_invalid lu ru (len lk) (len rk) in
   how = 0 \/ how = 1 \/ how = 2 ->
   v_writes_l (sel_variant how lu ru) = true ->
-  sorted lk -> sorted rk -> nbd (sel_a how lk rk) (sel_b how lk rk) ->
   len lk <= inv -> len rk <= inv ->
   idx_len_ok (len lk) lcols -> idx_len_ok (len rk) rcols ->
   ordered_dest how lu ru lk rk lcols rcols lsuf rsuf
   = map_fields (fst (jmaps how lu ru lk rk inv)) (snd (jmaps how lu ru lk rk inv)) ++
     merge_spec how [lk] [rk] lcols rcols lsuf rsuf.
 Proof.
-  intros inv Hhow Hw HL HR Hd HiL HiR HcL HcR.
+  intros inv Hhow Hw HiL HiR HcL HcR.
   unfold ordered_dest. fold inv. unfold jmaps. rewrite Hw.
   unfold merge_spec. rewrite !key_rows_single.
   set (v := sel_variant how lu ru) in *.
@@ -136,23 +135,23 @@ Proof.
   - (* left *)
     assert (Hv : v_left v = true) by reflexivity. rewrite Hv.
     unfold join_pairs. cbn [Z.eqb]. rewrite (left_pairs_jf inv rk HiR). rewrite <- jf_spec. f_equal.
-    + apply (side_out_spec _ _ _ _ _ (len lk)); [rewrite jf_spec; apply join_fst_valid| |exact HcL].
+    + apply (side_out_spec _ _ _ _ _ (len lk)); [rewrite jf_spec; apply join_fst_in_range| |exact HcL].
       apply map_opt_fst. intros p Hp. pose proof (jf_fst_range _ _ _ _ _ _ Hp). lia.
-    + apply (side_out_spec _ _ _ _ _ (len rk)); [rewrite jf_spec; apply join_snd_valid; assumption| |exact HcR].
+    + apply (side_out_spec _ _ _ _ _ (len rk)); [rewrite jf_spec; apply join_snd_in_range| |exact HcR].
       apply map_opt_snd.
   - (* right *)
     assert (Hv : v_left v = true) by reflexivity. rewrite Hv.
     unfold join_pairs. cbn [Z.eqb Pos.eqb]. rewrite (left_pairs_jf inv lk HiL). rewrite <- jf_spec.
     rewrite swap_fst, swap_snd. f_equal.
-    + apply (side_out_spec _ _ _ _ _ (len lk)); [rewrite jf_spec; apply join_snd_valid; assumption| |exact HcL].
+    + apply (side_out_spec _ _ _ _ _ (len lk)); [rewrite jf_spec; apply join_snd_in_range| |exact HcL].
       apply map_opt_snd.
-    + apply (side_out_spec _ _ _ _ _ (len rk)); [rewrite jf_spec; apply join_fst_valid| |exact HcR].
+    + apply (side_out_spec _ _ _ _ _ (len rk)); [rewrite jf_spec; apply join_fst_in_range| |exact HcR].
       apply map_opt_fst. intros p Hp. pose proof (jf_fst_range _ _ _ _ _ _ Hp). lia.
   - (* inner *)
     assert (Hv : v_left v = false) by reflexivity. rewrite Hv.
     unfold join_pairs. cbn [Z.eqb Pos.eqb]. rewrite (inner_pairs_jf inv rk HiR). rewrite <- jf_spec. f_equal.
-    + apply (side_out_spec _ _ _ _ _ (len lk)); [rewrite jf_spec; apply join_fst_valid| |exact HcL].
+    + apply (side_out_spec _ _ _ _ _ (len lk)); [rewrite jf_spec; apply join_fst_in_range| |exact HcL].
       apply map_opt_fst. intros p Hp. pose proof (jf_fst_range _ _ _ _ _ _ Hp). lia.
-    + apply (side_out_spec _ _ _ _ _ (len rk)); [rewrite jf_spec; apply join_snd_valid; assumption| |exact HcR].
+    + apply (side_out_spec _ _ _ _ _ (len rk)); [rewrite jf_spec; apply join_snd_in_range| |exact HcR].
       apply map_opt_snd.
 Qed.
